@@ -115,6 +115,22 @@ def run(ctx):
         sp = cp.calls("pgcat::pool::ServerPool::new")
         okm = bool(sp) and any(o.kind == "call" and o.call.name.endswith("Default>::default") for o in origins(cp, sp[0].args[3], taint=True))
         r3.check(okm, "private-cancel-map", "the mirror's ServerPool gets ClientServerMap::default() (private)", "the mirror shares a cancel map")
+    # what the mirror's pool and the clients' pools have in common is the connection manager (ServerPool): nothing in it - connect / is_valid, Server::startup -
+    # waits for a process-wide resource (a permit of a static semaphore, a static async lock): a mirror that accepts and then says nothing holds its connect
+    # attempt - and whatever that attempt holds - for connect_timeout, again and again; clients' attempts queue behind it (round 10)
+    WAITS = "re:^tokio::sync::(semaphore::Semaphore::(acquire|acquire_many|acquire_owned|acquire_many_owned)|mutex::Mutex<.*>::lock|mutex::Mutex::lock|rwlock::RwLock::(read|write)|rwlock::RwLock<.*>::(read|write)|batch_semaphore::Semaphore::acquire)$"
+    shared_fns = sorted(n_ for n_ in F.reachable_fns(["<pgcat::pool::ServerPool as bb8::api::ManageConnection>::connect", "<pgcat::pool::ServerPool as bb8::api::ManageConnection>::connect::{closure#0}",
+                                                        "<pgcat::pool::ServerPool as bb8::api::ManageConnection>::is_valid", "<pgcat::pool::ServerPool as bb8::api::ManageConnection>::is_valid::{closure#0}"])
+                        if n_ in F.bodies and (n_.startswith("<pgcat::pool::ServerPool") or n_.startswith("pgcat::server::Server::startup")))
+    waits = []
+    for n_ in shared_fns:
+        b_ = F.body(n_)
+        for c in b_.calls(WAITS):
+            if any(o.kind == "static" for o in origins(b_, c.args[0], taint=True)):
+                waits.append((n_, c))
+    r3.check(bool(shared_fns) and not waits, "manager-waits-on-nothing-process-wide", "the connection manager shared by the clients' pools and the mirrors' (%d functions) awaits no permit or lock of a static" % len(shared_fns),
+             "%s waits for %s of a static: the mirror tasks' pools use the same manager, a mirror that accepts connections and then hangs holds it for connect_timeout at every attempt - connection attempts to the healthy "
+             "primary wait behind the mirrors'" % ((waits[0][0].split(" as ")[0].strip("<") + "::" + waits[0][0].split("::")[-2], waits[0][1].name.split("::")[-1]) if waits else ("", "")), waits[0][1].where() if waits else "")
     # ---------------- R4
     r4 = ctx.rule("C20-R4", "a mirror is attached to the server whose index it names, and a server's manager is built from its own address.mirrors only", floor=3)
     fc = ctx.body(FROM_CONFIG, r4)
